@@ -10,6 +10,10 @@ pub trait Subject: Allocator + Clone + std::fmt::Debug + 'static {
   const SYNC: bool;
   fn snap(&self, max_nodes: usize) -> Snapshot;
   fn ranges(&self) -> Ranges;
+  /// `truncate(n)` where the flavour has it (unsync only)
+  fn truncate_(&mut self, _n: usize) -> Option<std::io::Result<()>> {
+    None
+  }
 }
 
 impl Subject for sync::Arena {
@@ -26,6 +30,9 @@ impl Subject for sync::Arena {
 impl Subject for unsync::Arena {
   const FLAVOUR: &'static str = "unsync";
   const SYNC: bool = false;
+  fn truncate_(&mut self, n: usize) -> Option<std::io::Result<()>> {
+    Some(self.truncate(n))
+  }
   fn snap(&self, max_nodes: usize) -> Snapshot {
     self.verif_snapshot(max_nodes)
   }
